@@ -5,8 +5,9 @@
                                     ShallowStorage, ReflogStorage
      storage/filesystem + dotgit    SetRef / setRefRwfs / checkReferenceAndTruncate
                                     (the reference file is created before the check),
-                                    Ref, Refs, RemoveRef, rewritePackedRefsWithoutRef,
-                                    PackRefs, processLine; object calls as a set
+                                    Ref, Refs, RemoveRef (packed-refs first),
+                                    rewritePackedRefsWithoutRef, PackRefs (hash references
+                                    only), processLine; object calls as a set
                                     (loose + packed); index / config / shallow / reflog files
    The filesystem model is the same for every Options value (ExclusiveAccess,
    UseInMemoryIdx, LargeObjectThreshold, cache sizes) and both object formats:
@@ -60,8 +61,8 @@ Definition mem_step (U : universe) (s : store) (o : sop) : store * res :=
 
 (* ------------------------------------------------------------- filesystem *)
 (* a line of packed-refs: a well-formed "hash name" line, or a line that
-   processLine rejects (PackRefs writes a loose symbolic reference as
-   "ref: target name": three fields) *)
+   processLine rejects (no storer call writes one any more: PackRefs used to
+   write a loose symbolic reference as "ref: target name") *)
 Inductive pline := PGood (n h : N) | PBad.
 
 Record fstore := mkFs {
@@ -136,21 +137,24 @@ Definition fs_cas (f : fstore) (n : N) (v : refval) (on : N) (ov : refval) : fst
     end
   end.
 
-(* RemoveRef: remove the file, then rewrite packed-refs without the name
-   (every line is parsed: a bad line fails the call after the file is gone) *)
+(* RemoveRef: rewrite packed-refs without the name first (every line is
+   parsed: a bad line fails the call and nothing has changed), then remove the
+   file *)
 Definition fs_del_ref (f : fstore) (n : N) : fstore * res :=
-  let l := fm_del n (f_loose f) in
   if packed_okb (f_packed f)
-  then (mkFs l (filter (fun p => match p with PGood n' _ => negb (n' =? n) | PBad => true end) (f_packed f)) (f_rest f), ROk)
-  else (mkFs l (f_packed f) (f_rest f), RErr EPackedRefsBad).
+  then (mkFs (fm_del n (f_loose f))
+             (filter (fun p => match p with PGood n' _ => negb (n' =? n) | PBad => true end) (f_packed f))
+             (f_rest f), ROk)
+  else (f, RErr EPackedRefsBad).
 
-(* PackRefs: all reference files (an empty one is an error) followed by the
-   packed lines of other names; the files are then removed.  The files are
-   written in the order of the directory walk, modelled as name order (billy
-   memfs sorts; a real filesystem yields its own order, which is observable only
-   once a bad line exists) *)
+(* PackRefs: the hash references among the reference files (an empty file is
+   an error) followed by the packed lines of names that have no file; the
+   packed files are then removed.  Symbolic references stay loose. *)
 Definition pack_line (p : N * refval) : pline :=
   match snd p with RHash h => PGood (fst p) h | RSym _ => PBad end.
+Definition is_hash (v : refval) : bool := match v with RHash _ => true | RSym _ => false end.
+Definition keeps_loose (p : N * option refval) : bool :=
+  match snd p with Some (RSym _) => true | _ => false end.
 
 Definition fs_pack_refs (f : fstore) : fstore * res :=
   match loose_list (f_loose f) with
@@ -158,7 +162,10 @@ Definition fs_pack_refs (f : fstore) : fstore * res :=
   | Some [] => (f, ROk)
   | Some l =>
     if packed_okb (f_packed f)
-    then (mkFs [] (map pack_line l ++ map pack_line (packed_unseen (map fst l) (f_packed f))) (f_rest f), ROk)
+    then (mkFs (filter keeps_loose (f_loose f))
+               (map pack_line (filter (fun p => is_hash (snd p)) l)
+                ++ map pack_line (packed_unseen (map fst l) (f_packed f)))
+               (f_rest f), ROk)
     else (f, RErr EPackedRefsBad)
   end.
 
